@@ -45,7 +45,9 @@ Inductive regrec :=
 
 Inductive event := Registered (r : regrec) | Unregistered (r : regrec).
 
-Inductive ret := RNone | RBool (b : bool) | RTypeError.
+(* ROutside: "the call is outside the modelled argument space"; never produced by [cstep], only
+   by the kernels regenerated from the source text (Gen/ComponentsKernel.v) *)
+Inductive ret := RNone | RBool (b : bool) | RTypeError | ROutside.
 
 (* the eight mutators + re-__init__; [f : option nat] of RegUtility is the ``factory=`` argument
    (an identity; the component is what it returns) *)
@@ -70,26 +72,56 @@ Definition ucache := list (spec * centry).
 Definition cache_get (c : ucache) (p : spec) : centry :=
   match aget Nat.eqb c p with Some e => e | None => (false, []) end.
 
-(* __getitem__ : count of the first ==-equal key, 0 if none *)
+(* _UnhashableComponentCounter: __getitem__ : count of the first ==-equal key, 0 if none *)
 Fixpoint cnt (l : list (value * nat)) (c : value) : nat :=
   match l with
   | [] => 0
   | (k, n) :: l' => if v_eq k c then n else cnt l' c
   end.
 
-(* __setitem__ *)
+(* _UnhashableComponentCounter.__setitem__ : the pair is replaced by (component, count) *)
 Fixpoint cnt_set (l : list (value * nat)) (c : value) (n : nat) : list (value * nat) :=
   match l with
   | [] => [(c, n)]
-  | (k, m) :: l' => if v_eq k c then (k, n) :: l' else (k, m) :: cnt_set l' c n
+  | (k, m) :: l' => if v_eq k c then (c, n) :: l' else (k, m) :: cnt_set l' c n
   end.
 
-(* __delitem__ *)
+(* _UnhashableComponentCounter.__delitem__ (the KeyError the source marks unreachable: no change) *)
 Fixpoint cnt_del (l : list (value * nat)) (c : value) : list (value * nat) :=
   match l with
   | [] => []
   | (k, m) :: l' => if v_eq k c then l' else (k, m) :: cnt_del l' c
   end.
+
+(* defaultdict(int) (Python dict semantics, hash consistent with ==): lookup by ==, an update
+   keeps the key object that was inserted first *)
+Definition dict_get := cnt.
+Fixpoint dict_set (l : list (value * nat)) (c : value) (n : nat) : list (value * nat) :=
+  match l with
+  | [] => [(c, n)]
+  | (k, m) :: l' => if v_eq k c then (k, n) :: l' else (k, m) :: dict_set l' c n
+  end.
+Definition dict_del := cnt_del.
+
+(* one value of _cache, whichever class it has: e[c] (None = TypeError: unhashable key on a dict),
+   e[c] = n, del e[c].  The counter's methods are parameters so that the kernels regenerated from
+   the source text can plug in their own. *)
+Section Entry.
+  Variable c_get : list (value * nat) -> value -> nat.
+  Variable c_set : list (value * nat) -> value -> nat -> list (value * nat).
+  Variable c_del : list (value * nat) -> value -> list (value * nat).
+  Variable hashable : value -> bool.
+  Definition entry_getitem (e : centry) (c : value) : option nat :=
+    let '(counter, l) := e in
+    if counter then Some (c_get l c) else if hashable c then Some (dict_get l c) else None.
+  Definition entry_setitem (e : centry) (c : value) (n : nat) : centry :=
+    let '(counter, l) := e in (counter, if counter then c_set l c n else dict_set l c n).
+  Definition entry_delitem (e : centry) (c : value) : centry :=
+    let '(counter, l) := e in (counter, if counter then c_del l c else dict_del l c).
+End Entry.
+(* otherdict.items() of a cache value; self._cache[provided] = e *)
+Definition entry_items (e : centry) : list (value * nat) := snd e.
+Definition cache_set (c : ucache) (p : spec) (e : centry) : ucache := aset Nat.eqb c p e.
 
 Record cstate := mkCS {
   c_utils : reg;                                                   (* self.utilities *)
@@ -100,6 +132,24 @@ Record cstate := mkCS {
   c_hreg : list (list spec * value * info);                        (* _handler_registrations *)
   c_cache : ucache                                                 (* _v_utility_registrations_cache._cache *)
 }.
+
+(* field updates (used by the kernels regenerated from the source text) *)
+Definition with_utils (st : cstate) (u : reg) : cstate :=
+  mkCS u (c_adapters st) (c_ureg st) (c_areg st) (c_sreg st) (c_hreg st) (c_cache st).
+Definition with_adapters (st : cstate) (a : reg) : cstate :=
+  mkCS (c_utils st) a (c_ureg st) (c_areg st) (c_sreg st) (c_hreg st) (c_cache st).
+Definition with_ureg (st : cstate) x : cstate :=
+  mkCS (c_utils st) (c_adapters st) x (c_areg st) (c_sreg st) (c_hreg st) (c_cache st).
+Definition with_areg (st : cstate) x : cstate :=
+  mkCS (c_utils st) (c_adapters st) (c_ureg st) x (c_sreg st) (c_hreg st) (c_cache st).
+Definition with_sreg (st : cstate) x : cstate :=
+  mkCS (c_utils st) (c_adapters st) (c_ureg st) (c_areg st) x (c_hreg st) (c_cache st).
+Definition with_hreg (st : cstate) x : cstate :=
+  mkCS (c_utils st) (c_adapters st) (c_ureg st) (c_areg st) (c_sreg st) x (c_cache st).
+Definition with_cache (st : cstate) x : cstate :=
+  mkCS (c_utils st) (c_adapters st) (c_ureg st) (c_areg st) (c_sreg st) (c_hreg st) x.
+(* an exception escaped / the call left the modelled space: the caller must propagate *)
+Definition is_exc (r : ret) : bool := match r with RTypeError | ROutside => true | _ => false end.
 
 (* Components.__init__: fresh registries, fresh registrations, cache dropped (rebuilt lazily from
    the -- empty -- registrations) *)
@@ -117,7 +167,9 @@ Section Components.
   (* __cache_utility: TypeError => switch to the counter, then += 1 *)
   Definition cache_utility (c : ucache) (p : spec) (comp : value) : ucache :=
     let '(counter, l) := cache_get c p in
-    aset Nat.eqb c p (counter || negb (hashable comp), cnt_set l comp (S (cnt l comp))).
+    let counter' := counter || negb (hashable comp) in
+    aset Nat.eqb c p (counter', if counter' then cnt_set l comp (S (cnt l comp))
+                               else dict_set l comp (S (cnt l comp))).
 
   (* __uncache_utility: None = the TypeError the source comment calls impossible; otherwise the
      new cache and ``count > 0``.  (A count that is already 0 would become -1 in Python; here
@@ -128,7 +180,7 @@ Section Components.
     else
       let count := cnt l comp - 1 in
       if Nat.eqb count 0 then Some (aset Nat.eqb c p (counter, cnt_del l comp), false)
-      else Some (aset Nat.eqb c p (counter, cnt_set l comp count), true).
+      else Some (aset Nat.eqb c p (counter, if counter then cnt_set l comp count else dict_set l comp count), true).
 
   Definition set_utils (st : cstate) (u : reg) ureg cache : cstate :=
     mkCS u (c_adapters st) ureg (c_areg st) (c_sreg st) (c_hreg st) cache.
